@@ -14,6 +14,7 @@ import (
 	"path/filepath"
 	"sort"
 	"strings"
+	"time"
 )
 
 func init() { facets["aliasf"] = facetAlias }
@@ -119,7 +120,19 @@ func facetAlias(args []string) error {
 				"components": map[string]any{kind: comp}}
 			bs, _ := json.Marshal(doc)
 			id := fmt.Sprintf("al%02d_%04d_%d", *shard, mi, ki)
+			disarm := armWatchdog(30*time.Second, func() {
+				// the generator does not return: record it and give up on the rest of this shard
+				fmt.Fprintf(gf, "%s\t%s\t%s\t%s\t%s\t%s\n", id, kind, hexs(strings.Join(enc, ";")), "hang", hexs("the generator did not return within 30s"), hexs(string(bs)))
+				fmt.Fprintf(cf, "aliascheck\t%s\t%s\n", id, hexs(strings.Join(enc, ";")))
+				gf.Close()
+				cf.Close()
+				stats["hang"]++
+				meta, _ := json.Marshal(map[string]any{"stats": stats})
+				os.WriteFile(filepath.Join(*out, "meta.json"), meta, 0o644)
+				os.Exit(0)
+			})
 			r := runGoag(*work, GenSpec{Name: id, Spec: bs, Ext: "json", Client: mi%2 == 0, DoNotEdit: true})
+			disarm()
 			cls := r.Outcome
 			switch {
 			case r.Outcome == "error" && strings.Contains(r.Detail, "reference cycle"):
